@@ -1,12 +1,11 @@
 #!/bin/bash
-# run every claimed check (quick tier) on /repo and summarise
+# Runs every claimed check (tier = $1, default quick) and prints one line per property.
 cd "$(dirname "$0")/.."
-fail=0
-for id in $(python3 -c "import json;print(' '.join(c['property_id'] for c in json.load(open('MANIFEST.json'))['checks']))"); do
+TIER=${1:-quick}
+for i in $(seq -w 1 20); do
+  id=C$i
   s=$(date +%s)
-  out=$(python3 tools/check.py $id --tier ${1:-quick} 2>/tmp/runall_$id.err)
-  rc=$?
-  echo "$id rc=$rc $(( $(date +%s) - s ))s :: $(echo "$out" | tail -1)"
-  if [ $rc -ne 0 ]; then fail=1; echo "$out" | head -5; tail -5 /tmp/runall_$id.err; fi
+  out=$(python3 tools/check.py $id --tier $TIER 2>&1); rc=$?
+  e=$(date +%s)
+  echo "$id rc=$rc $((e-s))s :: $(echo "$out" | grep -E 'VIOLATION|KNOWN-FINDING| ok ' | tail -2 | tr '\n' ' ')"
 done
-exit $fail
